@@ -120,7 +120,7 @@ def sem_part(tier, tag):
     n = len(frag)
     rng = random.Random(vlib.seed())
     allpairs = [(a, b) for a in range(1, n + 1) for b in range(1, n + 1)]
-    pairs = rng.sample(allpairs, min(len(allpairs), 1500 if tier == "quick" else 8000))
+    pairs = rng.sample(allpairs, min(len(allpairs), 1200 if tier == "quick" else 8000))
     src = semlib.program(frag, env)
     nsh = 12
     d = os.path.join(vlib.WORK, tag)
@@ -129,6 +129,10 @@ def sem_part(tier, tag):
     with open(typesf, "w") as f:
         f.write(json.dumps({"frag": frag, "env": env}) + "\n")
     traces = []
+
+    # third operands of chains: the scalar leaves and a few compounds
+    leafish = [i for i, t in enumerate(frag, 1) if t.get("t") in ("lit", "prim")]
+    thirds = leafish + [i for i, t in enumerate(frag, 1) if t.get("t") in ("obj", "tuple")][:6]
 
     def batch(k):
         mine = pairs[k::nsh]
@@ -147,6 +151,12 @@ def sem_part(tier, tag):
             four(f"X{a}", f"N{j}", f"{j}p")
             four(f"C{j}", f"X{b}", f"{j}q")
             four(f"C{j}", f"N{j}", f"{j}r")
+            # chains: the engine's own union / intersection / difference of (A, B) is an operand again, against a third type
+            # (a representation that reads correctly but is not normal shows in the NEXT operation)
+            c = thirds[j % len(thirds)]
+            four(f"U{j}", f"X{c}", f"{j}s")
+            four(f"I{j}", f"X{c}", f"{j}t")
+            four(f"D{j}", f"X{c}", f"{j}v")
         r = semlib.semtool({"id": k, "kind": "sem", "files": [["entry.ts", src]], "names": [f"X{i}" for i in range(1, n + 1)],
                             "ops": ops, "dump": sorted(dump), "materialize": []}, timeout=900)
         if r.get("outcome") != "ok":
@@ -169,6 +179,12 @@ def sem_part(tier, tag):
                 lines.append(line(f"X{a}", f"N{j}", f"{j}p", "A,not B"))
                 lines.append(line(f"C{j}", f"X{b}", f"{j}q", "not A,B"))
                 lines.append(line(f"C{j}", f"N{j}", f"{j}r", "not A,not B"))
+            c = thirds[j % len(thirds)]
+            for x, sfx, what in ((f"U{j}", f"{j}s", "A|B"), (f"I{j}", f"{j}t", "A&B"), (f"D{j}", f"{j}v", "A\\B")):
+                if okof.get(x) and x in r["dumps"] and f"X{c}" in r["dumps"]:
+                    ln = line(x, f"X{c}", sfx, f"({what}),C")
+                    ln["ic"] = c
+                    lines.append(ln)
         return lines
 
     import concurrent.futures as cf
@@ -204,7 +220,7 @@ def sem_part(tier, tag):
                     continue
                 seen.add(key)
                 payload = {"property": "C06", "layer": "semtype", "complaint": j["kind"], "A": vlib.ts(frag[e["ia"] - 1]), "B": vlib.ts(frag[e["ib"] - 1]),
-                           "operands": e["der"],
+                           "operands": e["der"], "C": vlib.ts(frag[e["ic"] - 1]) if e.get("ic") else None,
                            "declarations": [f"type {x['n']} = {vlib.ts(x['ty'])};" for x in env],
                            "dumps": {x: e[x] for x in ("a", "b", "u", "i", "d", "c")}, "atoms": traces[k][0]["atoms"]}
                 violations.append((vlib.write_replay("C06", f"{tier}-s{len(violations)}", payload),
